@@ -99,3 +99,21 @@ claim('C18',
       'Uint/Bool/String modelled on the dynamic type; sort.Slice = compare-exchange network with the real less closure; universe bound '
       '(<= 5 paths per case). Trusted: go/ssa, executor, z3.',
       'SSA symbolic execution + SMT (z3) over a symbolic presence universe; case-split shapes for the tree', 'DESIGN.md 6/C18')
+claim('C03',
+      'Histories of Sets (one operation each: update of a leaf, delete of a leaf / container over a 7-node universe with sibling names sharing '
+      'textual prefixes and list keys 1/10) run through the REAL Set handler, the real proposal commit (AddDeleteChildren, applyChangeToConfig), '
+      'the REAL configurationStore (populate/store/PrunePathMap) over stub atomix maps and are read back by the REAL Get handler (wildcard regexp '
+      'evaluated by Go\'s regexp via native call-out) with every query of a 7-query universe; compared after the history with a reference gNMI '
+      'state machine on parsed elements: Get returns exactly the live leaves addressed at element boundaries with the last written value. '
+      'Operation shapes are case-split (paths concrete), written values symbolic.',
+      'One operation per Set, history length 2 (quick) / 3 (thorough); atomix map contract stubbed (Get/List/transactional Insert/Update/Remove with '
+      'IfVersion); transaction initialisation (index stamping) emulated by the harness; PROTO Get only. Trusted: go/ssa, executor, z3, gohelper (Go regexp).',
+      'SSA symbolic execution + SMT (z3), case-split operation histories vs reference model', 'DESIGN.md 6/C03')
+claim('C13',
+      'The real Server.Set (getTargetInfo, doUpdateOrReplace, doDelete, computeChange, extensions, FindPathFromModel, CheckKeyValue, IsPathValid) '
+      'against a reference resolver written on parsed elements: 0..2 operations over a pool of 8 paths (model leaves, non-model path, textual prefix '
+      'of a model path, list leaf, key leaf with symbolic value, container, list entry) x update/delete x symbolic per-path and prefix targets '
+      '(none, t1, known-without-plugin, unknown) x symbolic size limit x malformed extensions: refused => error and no Create; accepted => exactly '
+      'one Create whose change names exactly the effective target and, per operation, the named path, kind and value.',
+      'Pool and operation count bounds as stated; JSON-valued updates outside (plugin GetPathValues). Trusted: go/ssa, executor, z3.',
+      'SSA symbolic execution + SMT (z3), case-split request shapes vs reference resolver', 'DESIGN.md 6/C13')
